@@ -33,6 +33,8 @@ func rwPayload(class string, w, seq int) []byte {
 		body = []byte{0x00, 0xff, 0xfe, 0x80, '\n', 0x00, '"', '\\', 0xc3, 0x28}
 	case "multiline":
 		body = []byte("line one\nline two\r\n\n\tline three")
+	case "format": // bytes that mean something to a formatter, a shell, a template
+		body = []byte("100% done %d %s %v %% %!(NOVERB) ${HOME} {{.}} \\n \x1b[31m%")
 	case "large":
 		body = bytes.Repeat([]byte{byte('A' + (w+seq)%26)}, 1<<20)
 	default:
@@ -77,7 +79,7 @@ func rwParse(data []byte) (map[int][]int, error) {
 
 // rwBodyOf recomputes the body from its length class.
 func rwBodyOf(n, w, seq int, got []byte) []byte {
-	for _, c := range []string{"binary", "multiline", "large", "plain"} {
+	for _, c := range []string{"binary", "multiline", "format", "large", "plain"} {
 		p := rwPayload(c, w, seq)
 		i := bytes.IndexByte(p, ':')
 		j := i + 1 + bytes.IndexByte(p[i+1:], ':')
@@ -100,7 +102,7 @@ func cmdRawWrite(f hx.Flags, r *hx.Result) {
 	defer os.RemoveAll(tmp)
 	log.RegisterTimeRotation("h", log.TimeRotation{Interval: 3600e9})
 	kinds := []string{"sync", "async", "syncLayout", "asyncLayout", "roll", "rollAsync", "rollSep", "console", "file"}
-	classes := []string{"plain", "empty", "one", "binary", "multiline", "large"}
+	classes := []string{"plain", "empty", "one", "binary", "multiline", "format", "large"}
 	writersSet := []int{1, 2, 8}
 	if hx.Thorough() {
 		writersSet = []int{1, 2, 3, 4, 5, 6, 7, 8}
